@@ -3,6 +3,7 @@ package ocppj
 import (
 	"errors"
 	"fmt"
+	"sync"
 
 	"gopkg.in/go-playground/validator.v9"
 
@@ -24,6 +25,9 @@ type Server struct {
 	invalidMessageHook        InvalidMessageHook
 	dispatcher                ServerDispatcher
 	RequestState              ServerState
+	// outcomeMutexes (client ID -> *sync.Mutex) order the reports of request outcomes per client
+	// (response / error handlers, cancellations).
+	outcomeMutexes sync.Map
 }
 
 type ClientHandler func(client ws.Channel)
@@ -102,7 +106,24 @@ func (s *Server) SetInvalidMessageHook(hook InvalidMessageHook) {
 
 // Registers a handler for canceled request messages.
 func (s *Server) SetCanceledRequestHandler(handler CanceledRequestHandler) {
-	s.dispatcher.SetOnRequestCanceled(handler)
+	if handler == nil {
+		s.dispatcher.SetOnRequestCanceled(nil)
+		return
+	}
+	s.dispatcher.SetOnRequestCanceled(func(clientID string, requestID string, request ocpp.Request, err *ocpp.Error) {
+		// Completing a request lets the dispatcher send the client's next one. If that fails at once, its
+		// cancellation must not be reported while the reader is still between the completion of the previous request
+		// and its response / error handler: outcomes are reported in the order of the requests.
+		mutex := s.outcomeMutex(clientID)
+		mutex.Lock()
+		defer mutex.Unlock()
+		handler(clientID, requestID, request, err)
+	})
+}
+
+func (s *Server) outcomeMutex(clientID string) *sync.Mutex {
+	mutex, _ := s.outcomeMutexes.LoadOrStore(clientID, &sync.Mutex{})
+	return mutex.(*sync.Mutex)
 }
 
 // Registers a handler for incoming client connections.
@@ -275,17 +296,23 @@ func (s *Server) ocppMessageHandler(wsChannel ws.Channel, data []byte) error {
 		case CALL_RESULT:
 			callResult := message.(*CallResult)
 			log.Debugf("handling incoming CALL RESULT [%s] from %s", callResult.UniqueId, wsChannel.ID())
+			mutex := s.outcomeMutex(wsChannel.ID())
+			mutex.Lock()
 			s.dispatcher.CompleteRequest(wsChannel.ID(), callResult.GetUniqueId())
 			if s.responseHandler != nil {
 				s.responseHandler(wsChannel, callResult.Payload, callResult.UniqueId)
 			}
+			mutex.Unlock()
 		case CALL_ERROR:
 			callError := message.(*CallError)
 			log.Debugf("handling incoming CALL RESULT [%s] from %s", callError.UniqueId, wsChannel.ID())
+			mutex := s.outcomeMutex(wsChannel.ID())
+			mutex.Lock()
 			s.dispatcher.CompleteRequest(wsChannel.ID(), callError.GetUniqueId())
 			if s.errorHandler != nil {
 				s.errorHandler(wsChannel, ocpp.NewError(callError.ErrorCode, callError.ErrorDescription, callError.UniqueId), callError.ErrorDetails)
 			}
+			mutex.Unlock()
 		}
 	}
 	return nil
